@@ -47,6 +47,20 @@ class C14(core.Prop):
             else:
                 opts['max_patterns'] = rng.choice([1, 2, 3])
         ex = rx.gen_examples(rng)
+        if rng.random() < 0.08:
+            # strip with pruning: several spellings (blanks around) of one string are one string, and their counts add up
+            opts['strip'] = True
+            for k_ in ('min_strings_per_pattern', 'max_patterns'):
+                opts.pop(k_, None)
+            if rng.random() < 0.5:
+                opts['min_strings_per_pattern'] = rng.choice([2, 3, 4])
+            else:
+                opts['max_patterns'] = rng.choice([1, 2])
+            ex = []
+            for w in rng.sample(['xy', 'AB', '1-2', '7.5', 'q', 'id:9', 'Zz'], rng.randint(2, 4)):
+                for sp in rng.sample([w, w + ' ', ' ' + w, '  ' + w + ' '], rng.randint(1, 3)):
+                    ex += [sp] * rng.randint(1, 4)
+            rng.shuffle(ex)
         if 'min_strings_per_pattern' in opts or 'max_patterns' in opts:
             ex = [s_ for s_ in ex for _ in range(rng.choice([1, 1, 2, 3]))]      # repeats
         return {'examples': ex, 'opts': opts, 'size': rx.gen_size(rng),
@@ -237,6 +251,26 @@ class C14(core.Prop):
         r, e, _, _ = rx.run_extract(ex, opts, size, seed, 'dict')
         if e is None and r != base:
             fail('dict-differs', 'list %r dict %r' % (base, r), 'dict-differs' + sk)
+        # rexpy_streams on the caller's own list, with a header line to skip: the same expressions on every call, and the
+        # list is the caller's
+        hdr = ['header'] + list(ex)
+        hdr0 = list(hdr)
+        kw_s = dict(opts)
+        if size:
+            kw_s['size'] = rx.rexpy.Size(**size)
+        for n_ in range(3):
+            st_a = random.getstate()
+            try:
+                r = rx.rexpy.rexpy_streams(hdr, out_path=False, skip_header=True, seed=seed, **kw_s)
+            except Exception as e_:   # noqa
+                r = 'exc:' + type(e_).__name__
+            random.setstate(st_a)
+            if hdr != hdr0:
+                fail('input-changed', 'rexpy_streams changed the list it was given: %r -> %r' % (hdr0[:4], hdr[:4]), 'input-changed:streams')
+                break
+            if r != base:
+                fail('repeat-differs', 'rexpy_streams, call %d: %r, extract: %r' % (n_ + 1, r, base), 'repeat-differs:streams' + sk)
+                break
         # byte strings with an encoding: a list and a frequency dictionary of the same examples
         if all(isinstance(s_, str) for s_ in ex):
             try:
